@@ -338,10 +338,16 @@ class UpnpFactory:
         """Create a UpnpAction from action_el."""
         action_info = self._parse_action_el(action_el)
         svs = {sv.name: sv for sv in state_variables}
-        arguments = [
-            UpnpAction.Argument(arg_info, svs[arg_info.state_variable_name])
-            for arg_info in action_info.arguments
-        ]
+        arguments = []
+        for arg_info in action_info.arguments:
+            if self._non_strict and arg_info.state_variable_name not in svs:
+                _LOGGER.debug(
+                    "Caught Action Argument with an unknown State Variable, ignoring"
+                )
+                continue
+            arguments.append(
+                UpnpAction.Argument(arg_info, svs[arg_info.state_variable_name])
+            )
         return UpnpAction(action_info, arguments, non_strict=self._non_strict)
 
     def _parse_action_el(self, action_el: ET.Element) -> ActionInfo:
